@@ -4,7 +4,7 @@ sys.path.insert(0, os.path.dirname(os.path.abspath(__file__)))
 import framework
 from framework import run_property
 import bbs_tables as T
-import rf_hash, rf_gates, rf_consts, rf_panic, rf_frame, rf_rand, rf_codec, rf_bits
+import rf_hash, rf_gates, rf_consts, rf_panic, rf_frame, rf_rand, rf_codec, rf_bits, rf_accept, rf_gatesets
 import cl03_rules as CL
 
 CL03_FS_SCOPE = ('cl03::sigma_protocols::NISP2', 'cl03::sigma_protocols::NISPSecrets', 'cl03::sigma_protocols::NISPMulti')
@@ -36,6 +36,8 @@ def P(pid):
             ('RF-T size thresholds (uniform behaviour in L / lengths)', rf_frame.rule_size_thresholds, 3),
             ('RF-P accumulation loops cover every message', lambda c: rf_codec.rule_loop_coverage(c, fns=['bbsplus::signature::core_sign', 'bbsplus::signature::core_verify']), 2),
             ('RF-M generator / message pairing', rf_codec.rule_generator_pairing, 8),
+            ('RF-W acceptance conditions test the combinations of inputs tested before', lambda c: rf_gatesets.rule_gate_sets(c, group='bbs', only=['::sign', '::verify']), 2),
+            ('RF-V acceptance regions (no new refusal of inputs accepted before)', lambda c: rf_accept.rule_acceptance_regions(c, only=['::sign', '::verify', 'core_sign', 'core_verify', 'calculate_domain', 'hash_to_scalar', 'key_gen']), 3),
         ]
         meta['explanation'] = ('Structural clauses of signature completeness decided on the MIR of the working tree: None==empty '
                                'normalisation of header/messages (complete), identical interface constants reaching every DST/seed role '
@@ -44,6 +46,7 @@ def P(pid):
         R = [
             ('RF-B pass-through arguments keep their role', rf_consts.rule_argument_roles, 40),
             ('RF-B message lists handed down whole', rf_consts.rule_list_integrity, 15),
+            ('RF-C octet-string ingredients are hashed whole', rf_hash.rule_whole_ingredients, 9),
             ('RF-C hash binding (domain, map, e)', lambda c: rf_hash.rule_hash_binding(c, rf_hash.BBS_TABLE, BBS_SCOPE,
                 only_fns=hash_fns('calculate_domain', 'messages_to_scalar', 'map_message_to_scalar_as_hash', 'core_sign', 'hash_to_scalar')), 20),
             ('RF-D verify gates', lambda c: rf_gates.rule_accept_requirements(c, only(T.VERIFY_REQS, T.SIG + 'verify', T.BSIG + 'verify_blind_sign')), 2),
@@ -60,6 +63,7 @@ def P(pid):
         R = [
             ('RF-B pass-through arguments keep their role', rf_consts.rule_argument_roles, 40),
             ('RF-B message lists handed down whole', rf_consts.rule_list_integrity, 15),
+            ('RF-C octet-string ingredients are hashed whole', rf_hash.rule_whole_ingredients, 9),
             ('RF-C challenge ingredients', lambda c: rf_hash.rule_hash_binding(c, rf_hash.BBS_TABLE, BBS_SCOPE,
                 only_fns=hash_fns('proof_challenge_calculate', 'calculate_domain')), 15),
             ('RF-D proof_verify gates', lambda c: rf_gates.rule_accept_requirements(c, only(T.VERIFY_REQS, T.POK + 'proof_verify')), 4),
@@ -115,6 +119,8 @@ def P(pid):
             ('RF-F proof_gen panic census', lambda c: rf_panic.rule_panic_census(c, entries=[T.POK + 'proof_gen'], with_serde=False, min_functions=12), 40),
             ('RF-D success values are computed from the inputs they bind', lambda c: rf_frame.rule_result_binding(c, only=['::proof_gen']), 6),
             ('RF-L index lists are validated against their own message list', rf_frame.rule_index_lists_validated, 5),
+            ('RF-V acceptance regions (no new refusal of inputs accepted before)', lambda c: rf_accept.rule_acceptance_regions(c, only=['::proof_gen', '::proof_verify', 'core_proof_gen', 'core_proof_verify', 'proof_init', 'proof_verify_init', 'calculate_domain']), 3),
+            ('RF-W acceptance conditions test the combinations of inputs tested before', lambda c: rf_gatesets.rule_gate_sets(c, group='bbs', only=['::proof_gen', '::proof_verify']), 2),
         ]
         meta['explanation'] = ('Decides completely: None==empty for every optional input of proof_gen / proof_verify; proof length = 272 + 32 * U from the '
                                'writer layout and the one-push-per-undisclosed-message loop; reader offsets equal writer offsets. Decides as necessary conditions '
@@ -135,6 +141,8 @@ def P(pid):
             ('RF-F blind generation panic census', lambda c: rf_panic.rule_panic_census(c, entries=[T.POK + 'blind_proof_gen', T.BSIG + 'blind_sign'], with_serde=False, min_functions=15), 60),
             ('RF-D success values are computed from the inputs they bind', lambda c: rf_frame.rule_result_binding(c, only=['blind_sign','commit','blind_proof_gen']), 15),
             ('RF-L index lists are validated against their own message list', rf_frame.rule_index_lists_validated, 5),
+            ('RF-V acceptance regions (no new refusal of inputs accepted before)', lambda c: rf_accept.rule_acceptance_regions(c, only=['commit', 'deserialize_and_validate_commit', 'blind_sign', 'verify_blind_sign', 'blind_proof_gen', 'blind_proof_verify', 'core_commit', 'core_commit_verify', 'prepare_parameters', 'calculate_blind_challenge', 'core_proof_gen', 'core_proof_verify', 'proof_verify_init']), 3),
+            ('RF-W acceptance conditions test the combinations of inputs tested before', lambda c: rf_gatesets.rule_gate_sets(c, group='bbs', only=['commit', 'blind_sign', 'verify_blind_sign', 'blind_proof_gen', 'blind_proof_verify']), 2),
         ]
         meta['explanation'] = ('Decides completely: None==empty for the optional octet/list inputs of the five blind entry points. Decides as necessary conditions: '
                                'all blind entry points reach only API_ID_BLIND (+ BLIND_ for blind generators) at every role, the commit randomness request M + 2 '
@@ -182,6 +190,7 @@ def P(pid):
         R = [
             ('RF-L limit guards', rf_frame.rule_limit_guards, 3),
             ('A5 constants equal the drafts', rf_consts.rule_ciphersuite_constants, 30),
+            ('RF-C octet-string ingredients are hashed whole', rf_hash.rule_whole_ingredients, 9),
             ('RF-C ingredient sets and length prefixes', lambda c: rf_hash.rule_hash_binding(c, rf_hash.BBS_TABLE, BBS_SCOPE), 60),
             ('RF-C I2OSP widths', rf_hash.rule_i2osp_width, 8),
             ('RF-A absent == empty in every function of the layer', rf_consts.rule_option_normalisation_all, 50),
@@ -200,6 +209,8 @@ def P(pid):
 
             ('RF-F update_signature panic census', lambda c: rf_panic.rule_panic_census(c, entries=[T.SIG + 'update_signature'], with_serde=False, min_functions=8), 12),
             ('RF-D success values are computed from the inputs they bind', lambda c: rf_frame.rule_result_binding(c, only=['update_signature','::sign']), 9),
+            ('RF-V acceptance regions (no new refusal of inputs accepted before)', lambda c: rf_accept.rule_acceptance_regions(c, only=['update_signature', 'core_sign', 'core_verify']), 3),
+            ('RF-W acceptance conditions test the combinations of inputs tested before', lambda c: rf_gatesets.rule_gate_sets(c, group='bbs', only=['update_signature']), 2),
         ]
         meta['explanation'] = ('Decides completely: a signature is returned only if update_index < n (boundary proven both ways) and the generator '
                                'selected is values[update_index + 1] as in sign/verify; update_signature reaches the same interface constants as sign; '
@@ -213,6 +224,7 @@ def P(pid):
             ('RF-N CL03 signature octets: reader offsets = writer offsets', rf_codec.rule_cl03_signature_codec, 1),
             ('RF-N serde writer/reader agreement (CL03 keys, signatures, bases, messages)', lambda c: rf_codec.rule_serde_symmetry(c, scope=('cl03::signature', 'cl03::keys', 'cl03::bases', 'cl03::blind', 'utils::message::cl03_message'), min_types=5), 15),
             ('RF-P every attribute is folded with the base of its own position', lambda c: rf_codec.rule_loop_coverage(c, fns=[CL.SIGI + 'sign_multiattr', CL.SIGI + 'verify_multiattr'], follow_prefix='cl03::signature::'), 3),
+            ('RF-W acceptance conditions test the combinations of inputs tested before', lambda c: rf_gatesets.rule_gate_sets(c, group='cl03', only=['::verify', 'verify_multiattr']), 2),
         ]
         meta['explanation'] = ('CL03 is analysed in the all-features configuration the baseline never builds. Decided (necessary): verify / verify_multiattr accept only through '
                                'the equation comparison (depending on v, e, s, bases, attributes, b, c, N), the lower bound on e and a comparison of every attribute with 2^lm '
@@ -230,6 +242,7 @@ def P(pid):
             ('RF-K every ZKPoK leaf gates acceptance', lambda c: CL.rule_every_leaf_gates(c, which=('zkpok',)), 40),
             ('RF-D sub-verifiers cannot be switched off by the proof', CL.rule_checks_not_skippable_by_artefact, 8),
             ('RF-P cursor discipline', CL.rule_cursor_discipline, 10),
+            ('RF-W acceptance conditions test the combinations of inputs tested before', lambda c: rf_gatesets.rule_gate_sets(c, group='cl03', only=['verify_proof']), 2),
         ]
         meta['explanation'] = ('Decided (necessary): every use of the secret key in blind_sign is dominated by verify_proof == true on the very C, C_trusted, pk, bases, key and positions '
                                'that are signed; verify_proof is gated by the multi-secret PoK, the per-attribute PoKs / range proofs and the PoK / range proof of r; each per-attribute commitment '
@@ -246,6 +259,7 @@ def P(pid):
             ('RF-K every PoKSignature leaf gates acceptance', lambda c: CL.rule_every_leaf_gates(c, which=('pok',)), 40),
             ('RF-D sub-verifiers cannot be switched off by the proof', CL.rule_checks_not_skippable_by_artefact, 8),
             ('RF-P cursor discipline (revealed / hidden position bookkeeping)', CL.rule_cursor_discipline, 10),
+            ('RF-W acceptance conditions test the combinations of inputs tested before', lambda c: rf_gatesets.rule_gate_sets(c, group='cl03', only=['proof_verify']), 2),
         ]
         meta['explanation'] = ('Decided (necessary): the recomputed challenge equality gates acceptance and depends on all nine responses, the four commitment values, both keys, the bases, the revealed '
                                'attributes and the attribute count; Ce is equated with the range proof on e and each per-attribute commitment with its range proof; every serialised leaf of the proof '
@@ -257,6 +271,7 @@ def P(pid):
             ('RF-C Fiat-Shamir ingredients', CL.rule_range_proof_hash_sites, 15),
             ('RF-Q tolerance exponent shape', CL.rule_tolerance_exponent, 2),
             ('RF-Q the honest prover refuses out-of-range values', CL.rule_prover_refuses_out_of_range, 3),
+            ('RF-W acceptance conditions test the combinations of inputs tested before', lambda c: rf_gatesets.rule_gate_sets(c, group='cl03', only=['Boudot2000RangeProof::verify']), 2),
         ]
         meta['explanation'] = ('Decided (necessary): acceptance of a Boudot range proof is gated by E\' == E^(2^T), the two decomposition equalities, both proofs of square and both larger-interval '
                                'proofs, each depending on the commitment, bases, modulus and bounds; the commitment carried by each proof of square is equated with E_a_1 / E_b_1 (the transplant defect); '
@@ -295,24 +310,24 @@ ALL = ['C%02d' % i for i in range(1, 20)]
 # unfix-* = reverse of a `fix:` commit of /repo; seeded/* = changes written by independent sub-agents (see DESIGN.md section 6).
 CONTROLS = {
     'C01': ['seeded/C01-a/patch.diff', 'seeded/C01-b/patch.diff'],
-    'C02': ['seeded/C02-a/patch.diff', 'seeded/C04-a/patch.diff', 'seeded/C02-b/patch.diff'],
-    'C03': ['seeded/C03-a/patch.diff', 'seeded/C09-a/patch.diff', 'seeded/C03-b/patch.diff'],
-    'C04': ['selftest/mutants/unfix-4e31b69.patch', 'seeded/C04-a/patch.diff', 'seeded/C04-b/patch.diff'],
-    'C05': ['seeded/C05-a/patch.diff', 'seeded/C05-b/patch.diff'],
-    'C06': ['seeded/C06-a/patch.diff', 'seeded/C06-b/patch.diff'],
-    'C07': ['seeded/C07-a/patch.diff', 'seeded/C07-b/patch.diff'],
-    'C08': ['selftest/mutants/unfix-928b770.patch', 'selftest/mutants/unfix-05eab20.patch', 'selftest/mutants/unfix-6597d81.patch', 'seeded/C08-a/patch.diff', 'seeded/C08-b/patch.diff'],
-    'C09': ['selftest/mutants/unfix-928b770.patch', 'selftest/mutants/unfix-4e31b69.patch', 'seeded/C09-a/patch.diff', 'seeded/C09-b/patch.diff'],
-    'C10': ['seeded/C10-a/patch.diff', 'seeded/C10-b/patch.diff'],
-    'C11': ['seeded/C11-a/patch.diff', 'seeded/C11-b/patch.diff'],
-    'C12': ['selftest/mutants/unfix-ae1f505.patch', 'seeded/C12-a/patch.diff', 'seeded/C12-b/patch.diff'],
-    'C13': ['selftest/mutants/unfix-4faa0f0.patch', 'seeded/C13-a/patch.diff', 'seeded/C13-b/patch.diff'],
-    'C14': ['selftest/mutants/unfix-2e6b8d5.patch', 'selftest/mutants/unfix-2d01ace.patch', 'seeded/C14-a/patch.diff', 'seeded/C14-b/patch.diff'],
-    'C15': ['selftest/mutants/unfix-2d01ace.patch', 'seeded/C15-a/patch.diff', 'seeded/C15-b/patch.diff'],
-    'C16': ['selftest/mutants/unfix-b52ed69.patch', 'seeded/C16-a/patch.diff', 'seeded/C16-b/patch.diff'],
-    'C17': ['seeded/C17-a/patch.diff', 'seeded/C17-b/patch.diff'],
-    'C18': ['seeded/C18-a/patch.diff', 'seeded/C18-b/patch.diff'],
-    'C19': ['seeded/C19-a/patch.diff', 'seeded/C19-b/patch.diff'],
+    'C02': ['seeded/C02-a/patch.diff', 'seeded/C04-a/patch.diff', 'seeded/C02-b/patch.diff', 'seeded/C02-c/patch.diff'],
+    'C03': ['seeded/C03-a/patch.diff', 'seeded/C09-a/patch.diff', 'seeded/C03-b/patch.diff', 'seeded/C03-c/patch.diff'],
+    'C04': ['selftest/mutants/unfix-4e31b69.patch', 'seeded/C04-a/patch.diff', 'seeded/C04-b/patch.diff', 'seeded/C04-c/patch.diff'],
+    'C05': ['seeded/C05-a/patch.diff', 'seeded/C05-b/patch.diff', 'seeded/C05-c/patch.diff'],
+    'C06': ['seeded/C06-a/patch.diff', 'seeded/C06-b/patch.diff', 'seeded/C06-c/patch.diff'],
+    'C07': ['seeded/C07-a/patch.diff', 'seeded/C07-b/patch.diff', 'seeded/C07-c/patch.diff'],
+    'C08': ['selftest/mutants/unfix-928b770.patch', 'selftest/mutants/unfix-05eab20.patch', 'selftest/mutants/unfix-6597d81.patch', 'seeded/C08-a/patch.diff', 'seeded/C08-b/patch.diff', 'seeded/C08-c/patch.diff'],
+    'C09': ['selftest/mutants/unfix-928b770.patch', 'selftest/mutants/unfix-4e31b69.patch', 'seeded/C09-a/patch.diff', 'seeded/C09-b/patch.diff', 'seeded/C09-c/patch.diff'],
+    'C10': ['seeded/C10-a/patch.diff', 'seeded/C10-b/patch.diff', 'seeded/C10-c/patch.diff'],
+    'C11': ['seeded/C11-a/patch.diff', 'seeded/C11-b/patch.diff', 'seeded/C11-c/patch.diff'],
+    'C12': ['selftest/mutants/unfix-ae1f505.patch', 'seeded/C12-a/patch.diff', 'seeded/C12-b/patch.diff', 'seeded/C12-c/patch.diff'],
+    'C13': ['selftest/mutants/unfix-4faa0f0.patch', 'seeded/C13-a/patch.diff', 'seeded/C13-b/patch.diff', 'seeded/C13-c/patch.diff'],
+    'C14': ['selftest/mutants/unfix-2e6b8d5.patch', 'selftest/mutants/unfix-2d01ace.patch', 'seeded/C14-a/patch.diff', 'seeded/C14-b/patch.diff', 'seeded/C14-c/patch.diff'],
+    'C15': ['selftest/mutants/unfix-2d01ace.patch', 'seeded/C15-a/patch.diff', 'seeded/C15-b/patch.diff', 'seeded/C15-c/patch.diff'],
+    'C16': ['selftest/mutants/unfix-b52ed69.patch', 'seeded/C16-a/patch.diff', 'seeded/C16-b/patch.diff', 'seeded/C16-c/patch.diff'],
+    'C17': ['seeded/C17-a/patch.diff', 'seeded/C17-b/patch.diff', 'seeded/C17-c/patch.diff'],
+    'C18': ['seeded/C18-a/patch.diff', 'seeded/C18-b/patch.diff', 'seeded/C18-c/patch.diff'],
+    'C19': ['seeded/C19-a/patch.diff', 'seeded/C19-b/patch.diff', 'seeded/C19-c/patch.diff'],
 }
 
 # negative controls (thorough tier): behaviour-preserving refactorings; the property's quick check must stay silent on each of them.
@@ -333,9 +348,9 @@ NEGATIVE = {
     'C14': ['selftest/negative/R3N7-p1.patch', 'selftest/negative/R3N7-p2.patch', 'selftest/negative/R3N7-p3.patch', 'selftest/negative/R3N7-p4.patch'],
     'C15': ['selftest/negative/R3N7-p1.patch', 'selftest/negative/R3N7-p2.patch', 'selftest/negative/R3N7-p3.patch', 'selftest/negative/R3N7-p4.patch'],
     'C16': ['selftest/negative/N5-C16-helper-correct-rounding.patch', 'selftest/negative/R3N8-p1.patch', 'selftest/negative/R3N8-p2.patch', 'selftest/negative/R3N8-p3.patch', 'selftest/negative/R3N8-p4.patch'],
-    'C17': ['selftest/negative/R3N7-p1.patch', 'selftest/negative/R3N7-p2.patch', 'selftest/negative/R3N7-p3.patch', 'selftest/negative/R3N7-p4.patch', 'selftest/negative/R3N8-p1.patch', 'selftest/negative/R3N8-p2.patch', 'selftest/negative/R3N8-p3.patch', 'selftest/negative/R3N8-p4.patch'],
+    'C17': ['selftest/negative/N10-r5-mapped-closure.patch', 'selftest/negative/R3N7-p1.patch', 'selftest/negative/R3N7-p2.patch', 'selftest/negative/R3N7-p3.patch', 'selftest/negative/R3N7-p4.patch', 'selftest/negative/R3N8-p1.patch', 'selftest/negative/R3N8-p2.patch', 'selftest/negative/R3N8-p3.patch', 'selftest/negative/R3N8-p4.patch'],
     'C18': ['selftest/negative/N6-C18-helper-correct-bits.patch', 'selftest/negative/R3N6-p1.patch', 'selftest/negative/R3N6-p2.patch', 'selftest/negative/R3N6-p3.patch', 'selftest/negative/R3N6-p4.patch'],
-    'C19': ['selftest/negative/R3N7-p1.patch', 'selftest/negative/R3N7-p2.patch', 'selftest/negative/R3N7-p3.patch', 'selftest/negative/R3N7-p4.patch'],
+    'C19': ['selftest/negative/N10-r5-mapped-closure.patch', 'selftest/negative/R3N7-p1.patch', 'selftest/negative/R3N7-p2.patch', 'selftest/negative/R3N7-p3.patch', 'selftest/negative/R3N7-p4.patch'],
 }
 
 # rules that are also evaluated on the other production configurations in the thorough tier (guards against feature-gated divergence)
